@@ -115,7 +115,10 @@ class Gen:
             return '"s"'
         if self.coin(0.12):
             # contents that look like other tokens or like format directives
-            return '"%s"' % r.choice(["True", "False", "pi", "q0", "name", "version", "for", "1", "1.5", "1+2j", "p0", "sin", "{x}", "%s", "50%", "%d items", "{0}", "\\n", "#c", "a,b", " "])
+            pool_ = ["True", "False", "pi", "q0", "name", "version", "for", "1", "1.5", "1+2j", "p0", "sin", "%s", "50%", "%d items", "\\n", "#c", "a,b", " "]
+            if self.o.get("brace_strings", True):
+                pool_ += ["{x}", "{0}", "{", "}"]
+            return '"%s"' % r.choice(pool_)
         alphabet = "abcXYZ019 _-+*/=.,:;()[]<>!?#$%&@^~|'\\`"
         n = r.choice([0, 1, 1, 3, 5, 9] + ([40, 120, 300] if self.o["big"] else []))
         s = "".join(r.choice(alphabet) for _ in range(n))
